@@ -78,7 +78,7 @@ def make_xx(cfg):
     coords = xr_coords(gbox)
     attrs = {}
     if cfg.get("nodata") is not None:
-        attrs["nodata"] = cfg["nodata"]
+        attrs[cfg.get("nodata_attr", "nodata")] = cfg["nodata"]
     xx = xr.DataArray(data, dims=dims, coords=coords, attrs=attrs)
     return xx, pix, gbox
 
@@ -171,6 +171,13 @@ def run_writer(cfg, workdir):
         rr = T.save_cog_with_dask(xx, dst, **kw)
         with scheduler(cfg):
             out = rr.compute()
+            if cfg.get("twice"):
+                # a task graph is not consumed by its first execution: examine the second one
+                with lock:
+                    rec.update(tile_bytes={}, observed=None, hdr_len=None, hdr_calls=0, meta=None, dups=0)
+                if os.path.exists(dst):
+                    os.unlink(dst)
+                out = rr.compute()
     finally:
         T._compress_cog_tile = orig_compress
         T._patch_hdr = orig_patch
